@@ -322,7 +322,11 @@ func c19JudgeConfig(mask int) *vlib.Failure {
 		cfg.RequestHeaders = append(cfg.RequestHeaders, "Sec-Fetch Mode") // invalid and carrying a forbidden prefix: one violation
 		want++
 	}
-	set(5, func() { cfg.ResponseHeaders = append(cfg.ResponseHeaders, "Set-Cookie") })
+	set(5, func() {
+		// Set-Cookie2 is an ordinary request-header name and a forbidden response-header name: one violation
+		cfg.ResponseHeaders = append(cfg.ResponseHeaders, "Set-Cookie2")
+		cfg.RequestHeaders = append(cfg.RequestHeaders, "Set-Cookie2")
+	})
 	set(6, func() { cfg.MaxAgeInSeconds = 86401 })
 	set(7, func() { cfg.PreflightSuccessStatus = 300 })
 	set(8, func() { cfg.PrivateNetworkAccess, cfg.PrivateNetworkAccessInNoCORSModeOnly = true, true })
